@@ -102,7 +102,7 @@ class Trace:
         return [e for e in self.events if e[1] in ks]
 
 
-def run(exe: str, n: int, tape: str = "", wd: str | None = None, timeout=20) -> Trace:
+def run(exe: str, n: int, tape: str = "", wd: str | None = None, timeout=180) -> Trace:
     tape_path = None
     if tape:
         tape_path = os.path.join(wd or os.path.dirname(exe), "tape.txt")
